@@ -287,6 +287,7 @@ namespace bloch::runtime {
         void exec(Statement* stmt);
         Value call(FunctionDeclaration* fn, const std::vector<Value>& args);
         Value lookup(const std::string& name);
+        Value stampStatic(Value v, const std::string& declaredClass) const;
         void assign(const std::string& name, const Value& v);
 
         // Qubit bookkeeping
